@@ -218,9 +218,13 @@ def check_tables(ctx, w):
     ctx.ob('G-TAB', f.construct, 'struct parsed at the position after the header', tr.get('offset') == [('=', 'tell(stream)')] and
            'aug_dict.update(struct_parse(struct, self.stream, offset))' in src, got=tr.get('offset'))
     g = w.model.func(CF, 'CallFrameInfo._read_augmentation_data')
-    src = U(g.node)
-    ctx.ob('G-TAB', g.construct, 'ULEB length then that many bytes (eh_frame only)', "entry_structs.Dwarf_uleb128('length')" in src and
-           'return self.stream.read(augmentation_data_length)' in src and "if not self.for_eh_frame:\n        return b''" in src)
+    genv = expr.FEnv(g.node, params=('entry_structs',))
+    rets = {}
+    for c, r, p in paths.returns_with_conds(g.node):
+        rets[expr.Facts(expr.CP(expr.cond_str(t, genv), pol) for t, pol in c).get('T(for_eh_frame)')] = expr.nfs(r, genv)
+    want_len = "index(struct_parse(Struct('Dummy_Augmentation_Data',Dwarf_uleb128('length')),stream),'length')"
+    ctx.ob('G-TAB', g.construct, 'ULEB length then that many bytes (eh_frame only)',
+           rets.get(False) == "b''" and rets.get(True) in ('read(stream,%s)' % want_len, 'read(stream,length)'), got=rets)
     # pc-relative adjustments
     h = w.model.func(CF, 'CallFrameInfo._parse_lsda_pointer')
     henv = expr.FEnv(h.node, params=('structs', 'stream_offset', 'encoding'), inline=False)
@@ -233,10 +237,9 @@ def check_tables(ctx, w):
     ops = [o.t() for o in streams.func_ops(h.node, henv) if o.kind == 'parse']
     ctx.ob('G-TAB', h.construct, 'pointer parsed at the field offset with the basic encoding', len(ops) == 1 and ops[0][3] == 'stream_offset' and
            "formats[basic_encoding]('LSDA_pointer')" in U(h.node), got=ops)
-    chains = dispatch.find_chain(h.node, dispatch.subject_name('modifier'), consts=None, min_branches=2)
-    src = U(h.node)
-    ctx.ob('G-TAB', h.construct, 'modifiers: absptr, pcrel, else rejected', "if modifier == DW_EH_encoding_flags['DW_EH_PE_absptr']:" in src and
-           "elif modifier == DW_EH_encoding_flags['DW_EH_PE_pcrel']:" in src and 'assert False' in src)
+    ok, why = _modifier_decision(h.node, henv, 'modifier', 'DW_EH_PE_absptr', 'ptr +=')
+    ctx.ob('G-TAB', h.construct, 'modifiers: absptr, pcrel, else rejected', ok, got=why,
+           msg='absptr leaves the pointer as parsed, pcrel adds section address + field offset, any other modifier is rejected')
     k = w.model.func(CF, 'CallFrameInfo._parse_fde_header')
     kenv = expr.FEnv(k.node, params=('entry_structs', 'offset'), inline=False)
     tr = expr.assign_trace(k.node, kenv)
@@ -250,8 +253,52 @@ def check_tables(ctx, w):
            "encoding = cie.augmentation_dict['FDE_encoding']" in src)
     ctx.ob('G-TAB', k.construct, 'encoding split', tr.get('basic_encoding') == [('=', expr.spec_nf('encoding & 0x0f'))] and
            tr.get('encoding_modifier') == [('=', expr.spec_nf('encoding & 0xf0'))])
-    ctx.ob('G-TAB', k.construct, '.debug_frame uses the fixed FDE header', 'if not self.for_eh_frame:\n        return struct_parse(entry_structs.Dwarf_FDE_header, self.stream, offset)' in src)
+    fixed = [expr.nfs(r, kenv) for c, r, p in paths.returns_with_conds(k.node)
+             if expr.Facts(expr.CP(expr.cond_str(t, kenv), pol) for t, pol in c).get('T(for_eh_frame)') is False]
+    ctx.ob('G-TAB', k.construct, '.debug_frame uses the fixed FDE header', fixed == ['struct_parse(Dwarf_FDE_header,stream,offset)'], got=fixed)
     ctx.ob('G-TAB', k.construct, 'whole header re-parsed at the entry offset', "result = struct_parse(Struct('Dwarf_FDE_header', *fields), self.stream, offset)" in src)
+
+
+def _modifier_decision(fnode, env, var, abs_name, adjust_prefix):
+    """Decision table of a pointer-encoding modifier, read off the paths (so that any arrangement of the tests is accepted):
+    for the modifier value absptr (or literal 0), pcrel and 'anything else', the one path whose branch outcomes are consistent with
+    that value must, respectively, not adjust, adjust, and be rejected (assert False / raise)."""
+    import re as _re
+    consts = {'DW_EH_PE_absptr': 0, 'DW_EH_PE_pcrel': 0x10, 'DW_EH_PE_omit': 0xff}
+    outcomes = {}
+    for label, val in (('absptr', 0), ('pcrel', 0x10), ('other', 0x30)):
+        hits = []
+        for p in paths.func_paths(fnode):
+            consistent = True
+            for t, pol in p.conds():
+                cs = expr.cond_str(t, env)
+                if var not in cs:
+                    continue
+                c = expr.CP(cs, pol)
+                m = _re.match(r"^\[(?:-1\*)?(DW_EH_PE_[a-z]+) \+ (?:-1\*)?%s == 0\]$" % var, c[0]) or _re.match(r"^\[(?:-1\*)?%s \+ (?:-1\*)?(DW_EH_PE_[a-z]+) == 0\]$" % var, c[0])
+                if m:
+                    truth = consts.get(m.group(1)) == val
+                elif c[0] == '[%s == 0]' % var:
+                    truth = val == 0
+                else:
+                    return False, 'test on the modifier not understood: %s' % cs
+                if truth != c[1]:
+                    consistent = False
+                    break
+            if consistent:
+                cl = p.conds()
+                # a rejection that does not come from a test on the modifier (another assertion of the function) is not this table's
+                if p.end[0] == 'raise' and not (cl and var in expr.cond_str(cl[-1][0], env)):
+                    continue
+                hits.append(p)
+        kinds = set()
+        for p in hits:
+            adj = any(U(x).startswith(adjust_prefix) for x in p.stmts())
+            rej = p.end[0] == 'raise'
+            kinds.add('reject' if rej else ('adjust' if adj else 'keep'))
+        outcomes[label] = sorted(kinds)
+    want = {'absptr': ['keep'], 'pcrel': ['adjust'], 'other': ['reject']}
+    return outcomes == want, outcomes
 
 
 def check_split(ctx, w):
